@@ -32,9 +32,11 @@ D = Decimal
 
 @st.composite
 def st_case(draw):
-    case = draw(st_universe("loop"))
+    case = draw(st_universe("loop", max_bars=12))
     nb = (case["start"] + case["n"] - 1) // case["k"] - case["start"] // case["k"] + 1
-    return {"u": case, "cut": draw(st.integers(0, max(0, nb - 2))) if nb > 1 else 0, "variant": draw(st.integers(0, 2))}
+    # cuts anywhere, with extra weight on late ones (a look-ahead through a trailing window needs a full window before the cut)
+    cut = draw(st.one_of(st.integers(0, max(0, nb - 2)), st.integers(max(0, nb - 4), max(0, nb - 2)))) if nb > 1 else 0
+    return {"u": case, "cut": cut, "variant": draw(st.integers(0, 2))}
 
 
 def tail_case(case, cut_row, cut_hour, variant):
